@@ -1,5 +1,5 @@
 use super::tag::{SyntheticTag, TagInner};
-use super::{utc_timestamp, Annotation, Status, Tag, Timestamp};
+use super::{Annotation, Status, Tag, Timestamp};
 use crate::depmap::DependencyMap;
 use crate::errors::{Error, Result};
 use crate::storage::TaskMap;
@@ -70,6 +70,13 @@ fn uda_string_to_tuple(key: &str) -> (&str, &str) {
     } else {
         ("", first)
     }
+}
+
+/// Convert seconds since the epoch to a timestamp, or None if chrono cannot represent that time.
+/// Stored values are arbitrary strings, so readers must not assume the range of
+/// [`utc_timestamp`].
+fn checked_utc_timestamp(secs: i64) -> Option<Timestamp> {
+    Utc.timestamp_opt(secs, 0).single()
 }
 
 fn uda_tuple_to_string(namespace: impl AsRef<str>, key: impl AsRef<str>) -> String {
@@ -206,13 +213,14 @@ impl Task {
     pub fn get_annotations(&self) -> impl Iterator<Item = Annotation> + '_ {
         self.data.iter().filter_map(|(k, v)| {
             if let Some(ts) = k.strip_prefix("annotation_") {
-                if let Ok(ts) = ts.parse::<i64>() {
+                // note that invalid "annotation_*" are ignored, including timestamps that
+                // are integers but do not correspond to a representable time
+                if let Some(entry) = ts.parse::<i64>().ok().and_then(checked_utc_timestamp) {
                     return Some(Annotation {
-                        entry: utc_timestamp(ts),
+                        entry,
                         description: v.to_owned(),
                     });
                 }
-                // note that invalid "annotation_*" are ignored
             }
             None
         })
@@ -551,7 +559,8 @@ impl Task {
     pub fn get_timestamp(&self, property: &str) -> Option<Timestamp> {
         if let Some(ts) = self.data.get(property) {
             if let Ok(ts) = ts.parse() {
-                return Some(utc_timestamp(ts));
+                // an integer that is not a representable time also defaults to None
+                return checked_utc_timestamp(ts);
             }
             // if the value does not parse as an integer, default to None
         }
